@@ -369,6 +369,7 @@ class Ledger(object):
         any_fired = False
         ncred = len(self.credits)
         any_fail = False
+        pairs = []
         for i, tr in enumerate(t.get("next") or []):
             do = list(tr.get("do") or [])
             if do == ["retry"]:
@@ -411,6 +412,11 @@ class Ledger(object):
             has_fail = "fail" in do
             any_fail = any_fail or has_fail
             for tgt in do:
+                pairs.append((tgt, i, out, has_fail))
+        # the engine walks the outgoing edges ordered by target name (then transition position);
+        # that order decides record order, hence the merge order of terminal contexts
+        for tgt, i, out, has_fail in sorted(pairs, key=lambda p_: (p_[0], p_[1])):
+            if True:
                 if tgt == "retry":
                     continue
                 if tgt == "continue":
